@@ -173,6 +173,22 @@ Lemma clone_shallow_ok : forall h n, n_ty (nd h n) <> TDoc ->
   n_owned (clone_shallow cfg_fixed h n) = false /\ n_ty (clone_shallow cfg_fixed h n) <> TDoc.
 Proof. intros h n T. unfold clone_shallow. destruct (n_ty (nd h n)); cbn; split; try discriminate; auto. Qed.
 
+Lemma up_pres_oelem v : up_pres (set_oelem v). Proof. intros []; reflexivity. Qed.
+Lemma up_pres_dead v : up_pres (set_dead v). Proof. intros []; reflexivity. Qed.
+#[export] Hint Resolve up_pres_oelem up_pres_dead : upres.
+
+Lemma G_clone_attrs : forall clonef l h c h' r,
+  (forall h0 m h1 r1, WFup h0 -> clonef h0 m = (h1, r1) -> G h0 h1) ->
+  WFup h -> clone_attrs clonef h c l = (h', r) -> G h h'.
+Proof.
+  induction l as [|a l IH]; intros h c h' r Hc W; cbn [clone_attrs]; [done_same|].
+  destruct (clonef h a) as [h2 r2] eqn:E2. pose proof (Hc _ _ _ _ W E2) as [W2 L2].
+  destruct r2; try (intros [= <- _]; split; assumption).
+  destruct (G_upd h2 i (set_oelem (Some c)) ltac:(auto with upres) W2) as [W3 L3].
+  destruct (G_upd _ c (set_attrs (n_attrs (nd h2 c) ++ [i])) ltac:(auto with upres) W3) as [W4 L4].
+  intros E. destruct (IH _ _ _ _ Hc W4 E). split; [assumption|lia].
+Qed.
+
 Lemma G_clone : forall fuel h n deep h' r, WFup h -> clone fuel cfg_fixed h n deep = (h', r) -> G h h'.
 Proof.
   induction fuel as [|fuel IH]; intros h n deep h' r W; cbn [clone]; [done_same|].
@@ -181,21 +197,32 @@ Proof.
   unfold alloc.
   destruct (clone_shallow_ok h n T) as [So St].
   pose proof (G_alloc h _ W So St) as [W1 L1]. rewrite app_length in L1. cbn [length] in L1.
-  destruct (_ && negb (is_leaf (n_ty (nd h n)))); [|intros [= <- _]; split; [assumption|rewrite app_length; cbn; lia]].
-  match goal with |- context [clone_kids _ _ _ ?X _ _] => set (h1 := X) end.
-  assert (G1 : WFup h1 /\ length h1 = length h + 1).
-  { subst h1. destruct (n_ty (nd h n)); try (split; [assumption|rewrite app_length; reflexivity]).
-    destruct (G_upd (h ++ [clone_shallow cfg_fixed h n]) (length h) (set_ro false) ltac:(auto with upres) W1).
-    split; [assumption|rewrite length_upd, app_length; reflexivity]. }
-  destruct G1 as [Wh1 Lh1].
-  destruct (clone_kids _ _ _ h1 _ _) as [h4 r4] eqn:E4.
-  assert (G4 : G h1 h4).
-  { assert (Hc1 : length h < length h1) by lia.
-    eapply G_clone_kids; [| |exact Hc1|exact E4]; [|assumption]. intros h0 m h2 r2 W0 E0. cbv beta in E0. eapply IH; eassumption. }
-  destruct G4 as [W4 L4].
-  destruct (is_err r4); [intros [= <- _]; split; [assumption|lia]|].
-  destruct (n_ty (nd h n)); intros [= <- _]; try (split; [assumption|lia]).
-  destruct (G_upd h4 (length h) (set_ro true) ltac:(auto with upres) W4). split; [assumption|lia].
+  match goal with |- context [is_err (snd ?R)] => remember R as res eqn:Eres end.
+  assert (Gres : WFup (fst res) /\ length h <= length (fst res)).
+  { destruct res as [hr rr]. symmetry in Eres. cbn [fst]. revert Eres.
+    destruct (_ && negb (is_leaf (n_ty (nd h n)))); [|intros [= <- _]; split; [assumption|rewrite app_length; cbn; lia]].
+    match goal with |- context [clone_kids _ _ _ ?X _ _] => set (h1 := X) end.
+    assert (G1 : WFup h1 /\ length h1 = length h + 1).
+    { subst h1. destruct (n_ty (nd h n)); try (split; [assumption|rewrite app_length; reflexivity]).
+      destruct (G_upd (h ++ [clone_shallow cfg_fixed h n]) (length h) (set_ro false) ltac:(auto with upres) W1).
+      split; [assumption|rewrite length_upd, app_length; reflexivity]. }
+    destruct G1 as [Wh1 Lh1].
+    destruct (clone_kids _ _ _ h1 _ _) as [h4 r4] eqn:E4.
+    assert (G4 : G h1 h4).
+    { assert (Hc1 : length h < length h1) by lia.
+      eapply G_clone_kids; [| |exact Hc1|exact E4]; [|assumption]. intros h0 m h2 r2 W0 E0. cbv beta in E0. eapply IH; eassumption. }
+    destruct G4 as [W4 L4].
+    destruct (is_err r4); [intros [= <- _]; split; [assumption|lia]|].
+    destruct (n_ty (nd h n)); intros [= <- _]; try (split; [assumption|lia]).
+    destruct (G_upd h4 (length h) (set_ro true) ltac:(auto with upres) W4). split; [assumption|lia]. }
+  destruct Gres as [Wr Lr]. clear Eres.
+  assert (Fin : res = (h', r) -> G h h') by (intros E; rewrite E in *; cbn [fst] in *; split; assumption).
+  destruct (n_ty (nd h n)); try exact Fin.
+  destruct (is_err (snd res)); [exact Fin|].
+  destruct (clone_attrs _ (fst res) (length h) _) as [h5 r5] eqn:E5.
+  assert (G5 : G (fst res) h5).
+  { eapply G_clone_attrs; [|exact Wr|exact E5]. intros h0 m h2 r2 W0 E0. cbv beta in E0. eapply IH; eassumption. }
+  destruct G5 as [W5 L5]. destruct (is_err r5); intros [= <- _]; (split; [assumption|lia]).
 Qed.
 
 Lemma G_attr : forall h e f, WFup h -> G h (upd h e (set_attrs f)).
@@ -220,9 +247,17 @@ Proof.
   destruct (IH _ _ _ _ _ W2 Hn2 E3). split; [assumption|lia].
 Qed.
 
-Lemma G_rename : forall h d n ns nm h' r, WFup h -> rename_node cfg_fixed h d n ns nm = (h', r) -> G h h'.
+Lemma G_fold_oelem : forall v l h, WFup h ->
+  WFup (fold_left (fun h0 a => upd h0 a (set_oelem v)) l h) /\ length (fold_left (fun h0 a => upd h0 a (set_oelem v)) l h) = length h.
 Proof.
-  intros h d n ns nm h' r W. unfold rename_node, alloc, v_insert.
+  induction l as [|a l IH]; intros h W; cbn [fold_left]; [split; [assumption|reflexivity]|].
+  destruct (G_upd h a (set_oelem v) ltac:(auto with upres) W) as [W1 _].
+  destruct (IH _ W1) as [W2 L2]. split; [assumption|]. rewrite L2. apply length_upd.
+Qed.
+
+Lemma G_rename_core : forall h d n ns nm h' r, WFup h -> rename_core cfg_fixed h d n ns nm = (h', r) -> G h h'.
+Proof.
+  intros h d n ns nm h' r W. unfold rename_core, alloc, v_insert.
   destruct (negb (oid_eqb _ _)); [done_same|].
   destruct (negb (_ || _)) eqn:ET; [done_same|].
   destruct (n_nsimpl (nd h n)).
@@ -232,7 +267,7 @@ Proof.
   destruct ns as [|c ns]; [intros [= <- _]; apply G_upd; auto with upres|].
   destruct (negb (valid_name nm)); [done_same|].
   destruct (ns_bind _ _ nm) as [uri|]; [|done_same].
-  set (x := mkNode _ nm _ _ _ _ _ _ _ _ _ _ _ _ _). set (h1 := h ++ [x]).
+  set (x := mkNode _ nm _ _ _ _ _ _ _ _ _ _ _ _ _ _ _). set (h1 := h ++ [x]).
   assert (Tx : n_ty (nd h n) <> TDoc).
   { intros T. rewrite T in ET. discriminate. }
   assert (G1 : G h h1) by (subst h1 x; apply G_alloc; auto).
@@ -255,48 +290,117 @@ Proof.
     assert (Hp3 : p < length h3) by lia.
     pose proof (G_ins _ _ _ _ _ _ _ W3 Hp3 E4) as [W4 L4].
     destruct (is_err r4); intros [= <- _]; [split; [assumption|lia]|].
-    destruct (G_upd h4 (length h) (set_attrs (n_attrs (nd h4 n))) ltac:(auto with upres) W4) as [W5 L5].
-    destruct (G_upd _ n (set_attrs []) ltac:(auto with upres) W5) as [W6 L6]. split; [assumption|lia].
+    destruct (G_fold_oelem (Some (length h)) (n_attrs (nd h4 n)) h4 W4) as [Wf Lf].
+    destruct (G_upd _ (length h) (set_attrs (n_attrs (nd h4 n))) ltac:(auto with upres) Wf) as [W5 L5].
+    destruct (G_upd _ n (set_attrs []) ltac:(auto with upres) W5) as [W6 L6]. split; [assumption|].
+    rewrite !length_upd, Lf. lia.
   - cbn [is_err].
     destruct (rename_move _ _ h1 n (length h)) as [h3 r3] eqn:E3.
     pose proof (G_rename_move _ _ _ _ _ _ W1 Ll E3) as [W3 L3].
     destruct (is_err r3); [intros [= <- _]; split; [assumption|lia]|]. cbn [is_err].
     intros [= <- _].
-    destruct (G_upd h3 (length h) (set_attrs (n_attrs (nd h3 n))) ltac:(auto with upres) W3) as [W5 L5].
-    destruct (G_upd _ n (set_attrs []) ltac:(auto with upres) W5) as [W6 L6]. split; [assumption|lia].
+    destruct (G_fold_oelem (Some (length h)) (n_attrs (nd h3 n)) h3 W3) as [Wf Lf].
+    destruct (G_upd _ (length h) (set_attrs (n_attrs (nd h3 n))) ltac:(auto with upres) Wf) as [W5 L5].
+    destruct (G_upd _ n (set_attrs []) ltac:(auto with upres) W5) as [W6 L6]. split; [assumption|].
+    rewrite !length_upd, Lf. lia.
 Qed.
 
-(** every operation *)
-Lemma step_G : forall h o h' r, WFup h -> step h o = (h', r) -> G h h'.
+Lemma valid_lt : forall h i, valid h i = true -> i < length h.
+Proof. intros h i H. unfold valid in H. apply andb_prop in H. destruct H as [H _]. apply Nat.ltb_lt. exact H. Qed.
+
+Lemma G_kill : forall fuel h n, WFup h -> WFup (kill fuel h n) /\ length (kill fuel h n) = length h.
 Proof.
-  intros h o h' r W. unfold step, step_cfg, valid, ovalid.
-  destruct o.
-  - destruct (_ <? _); [apply G_create; assumption|done_same].
-  - destruct (Nat.ltb_spec p (length h)); cbn [andb]; [|done_same].
-    destruct (_ && _); [|done_same]. unfold v_insert. apply G_ins; assumption.
-  - destruct (Nat.ltb_spec p (length h)); cbn [andb]; [|done_same].
-    destruct (_ <? _); [|done_same]. unfold v_insert. apply G_ins; assumption.
-  - destruct (_ && _); [|done_same]. apply G_v_remove; assumption.
-  - destruct (Nat.ltb_spec p (length h)); cbn [andb]; [|done_same].
-    destruct (_ && _); [|done_same]. apply G_v_replace; assumption.
-  - destruct (_ <? _); [|done_same]. unfold clone_node. apply G_clone; assumption.
-  - destruct (_ <? _); [|done_same]. apply G_normalize; assumption.
-  - destruct (_ && _); [|done_same]. apply G_cd_set; assumption.
-  - destruct (_ && _); [|done_same]. apply G_cd_append; assumption.
-  - destruct (_ && _); [|done_same]. apply G_cd_insert; assumption.
-  - destruct (_ && _); [|done_same]. apply G_cd_delete; assumption.
-  - destruct (_ && _); [|done_same]. apply G_cd_replace; assumption.
-  - destruct (_ && _); [|done_same]. unfold cd_substring. destruct (N.ltb _ _); done_same.
-  - destruct (Nat.ltb_spec n (length h)); cbn [andb]; [|done_same].
-    destruct (ntype_eqb (n_ty (nd h n)) TText || ntype_eqb (n_ty (nd h n)) TCData) eqn:E; [|done_same].
-    apply G_split; try assumption. intros T. rewrite T in E. discriminate.
-  - destruct (_ && _); [|done_same]. unfold set_attribute. destruct (n_ro _); [done_same|].
-    destruct (attr_get _ _); [intros [= <- _]; apply G_attr; assumption|].
-    destruct (valid_name nm); [intros [= <- _]; apply G_attr; assumption|done_same].
-  - destruct (_ && _); [|done_same]. unfold remove_attribute. destruct (n_ro _); [done_same|].
-    intros [= <- _]; apply G_attr; assumption.
-  - destruct (_ && _); [|done_same]. unfold get_attribute. done_same.
-  - destruct (_ && _); [|done_same]. apply G_rename; assumption.
+  induction fuel as [|fuel IH]; intros h n W; cbn [kill]; [split; [assumption|reflexivity]|].
+  destruct (G_upd h n (set_dead true) ltac:(auto with upres) W) as [W1 _].
+  assert (L1 : length (upd h n (set_dead true)) = length h) by apply length_upd.
+  revert W1 L1. generalize (upd h n (set_dead true)). generalize (kids h n). intros l.
+  induction l as [|k l IHl]; intros h0 W0 L0; cbn [fold_left]; [split; assumption|].
+  destruct (IH h0 k W0) as [W2 L2]. apply IHl; [exact W2|lia].
+Qed.
+
+Lemma G_set_attr_node : forall h e a h' r, WFup h -> set_attribute_node h e a = (h', r) -> G h h'.
+Proof.
+  intros h e a h' r W. unfold set_attribute_node, amap_set. destruct (n_ro (nd h e)); [done_same|].
+  destruct (negb (oid_eqb _ _)); [done_same|]. destruct (match n_oelem (nd h a) with Some o => _ | None => false end); [done_same|].
+  destruct (G_upd h a (set_oelem (Some e)) ltac:(auto with upres) W) as [W1 L1].
+  match goal with |- context [upd ?H e (set_attrs ?L)] => destruct (G_upd H e (set_attrs L) ltac:(auto with upres) W1) as [W2 L2] end.
+  destruct (amap_find _ _ _) as [p|]; [|intros [= <- _]; split; [assumption|lia]].
+  destruct (Nat.eqb p a); intros [= <- _]; [split; [assumption|lia]|].
+  match goal with |- G _ (upd ?H p ?f) => destruct (G_upd H p f ltac:(auto with upres) W2) end. split; [assumption|lia].
+Qed.
+Lemma G_remove_attr_node : forall h e a h' r, WFup h -> remove_attribute_node h e a = (h', r) -> G h h'.
+Proof.
+  intros h e a h' r W. unfold remove_attribute_node. destruct (n_ro _); [done_same|].
+  destruct (if n_nsimpl (nd h a) then _ else _) as [f|]; [|done_same].
+  destruct (Nat.eqb f a); [|done_same]. intros [= <- _].
+  destruct (G_upd h e (set_attrs (amap_del (n_attrs (nd h e)) a)) ltac:(auto with upres) W) as [W1 L1].
+  destruct (G_upd _ a (set_oelem None) ltac:(auto with upres) W1). split; [assumption|lia].
+Qed.
+Lemma G_rename : forall h d n ns nm h' r, WFup h -> rename_node cfg_fixed h d n ns nm = (h', r) -> G h h'.
+Proof.
+  intros h d n ns nm h' r W. unfold rename_node. destruct (negb (oid_eqb _ _)); [done_same|].
+  destruct (if ntype_eqb _ TAttr then _ else None) as [el|]; [|apply G_rename_core; assumption].
+  destruct (remove_attribute_node h el n) as [h1 r1] eqn:E1. pose proof (G_remove_attr_node _ _ _ _ _ W E1) as [W1 L1].
+  destruct (is_err r1); [intros [= <- _]; split; assumption|].
+  destruct (rename_core cfg_fixed h1 d n ns nm) as [h2 r2] eqn:E2. pose proof (G_rename_core _ _ _ _ _ _ _ W1 E2) as [W2 L2].
+  destruct r2; try (intros [= <- _]; split; [assumption|lia]).
+  destruct (set_attribute_node h2 el i) as [h3 r3] eqn:E3. pose proof (G_set_attr_node _ _ _ _ _ W2 E3) as [W3 L3].
+  cbn [fst]. intros [= <- _]. split; [assumption|lia].
+Qed.
+
+(** every operation, except the two that rebuild the VALUE of an attribute (setAttribute, and setNodeValue on an Attr):
+    those release the attribute's children and append a fresh Text node; their invariant proof is not done *)
+Definition covered (h : heap) (o : op) : bool :=
+  match o with
+  | OSetAttr _ _ _ => false
+  | OSetData n _ => negb (ntype_eqb (n_ty (nd h n)) TAttr)
+  | _ => true
+  end.
+
+Ltac splitc := match goal with |- (if ?b then _ else _) = _ -> _ => destruct b eqn:Ev; [|done_same] end.
+Ltac vlt H := repeat rewrite andb_true_iff in H; repeat match type of H with _ /\ _ => destruct H as [H ?] end.
+
+Lemma step_G : forall h o h' r, WFup h -> covered h o = true -> step h o = (h', r) -> G h h'.
+Proof.
+  intros h o h' r W Hc. unfold step, step_cfg.
+  destruct o; cbn [covered] in Hc; try discriminate Hc.
+  - splitc. apply G_create; assumption.
+  - splitc. rewrite !andb_true_iff in Ev. destruct Ev as [[Ev1 Ev2] Ev3]. unfold v_insert. apply G_ins; [assumption|apply valid_lt; assumption].
+  - splitc. rewrite !andb_true_iff in Ev. destruct Ev as [Ev1 Ev2]. unfold v_insert. apply G_ins; [assumption|apply valid_lt; assumption].
+  - splitc. apply G_v_remove; assumption.
+  - splitc. rewrite !andb_true_iff in Ev. destruct Ev as [[Ev1 Ev2] Ev3]. apply G_v_replace; [assumption|apply valid_lt; assumption].
+  - splitc. unfold clone_node. apply G_clone; assumption.
+  - splitc. apply G_normalize; assumption.
+  - match goal with |- (if ?b then _ else _) = _ -> _ => destruct b eqn:Ev end; [apply G_cd_set; assumption|].
+    match goal with |- (if ?b then _ else _) = _ -> _ => destruct b eqn:Ev2; [|done_same] end.
+    exfalso. rewrite andb_true_iff in Ev2. destruct Ev2 as [_ Ev2]. rewrite Ev2 in Hc. discriminate.
+  - splitc. apply G_cd_append; assumption.
+  - splitc. apply G_cd_insert; assumption.
+  - splitc. apply G_cd_delete; assumption.
+  - splitc. apply G_cd_replace; assumption.
+  - splitc. unfold cd_substring. destruct (N.ltb _ _); done_same.
+  - splitc. rewrite !andb_true_iff in Ev. destruct Ev as [Ev1 Ev2].
+    apply G_split; try assumption; [apply valid_lt; assumption|]. intros T. rewrite T in Ev2. discriminate.
+  - splitc. unfold remove_attribute. destruct (n_ro _); [done_same|]. destruct (amap_find _ _ _) as [i|]; [|done_same].
+    intros [= <- _].
+    destruct (G_upd h e (set_attrs (amap_del (n_attrs (nd h e)) i)) ltac:(auto with upres) W) as [W1 L1].
+    destruct (G_upd _ i (set_oelem None) ltac:(auto with upres) W1) as [W2 L2].
+    destruct (G_kill (length h) _ i W2) as [W3 L3]. split; [assumption|]. rewrite L3, !length_upd. lia.
+  - splitc. unfold get_attribute. done_same.
+  - splitc. unfold set_attribute_node, amap_set. destruct (n_ro (nd h e)); [done_same|].
+    destruct (negb (oid_eqb _ _)); [done_same|]. destruct (match n_oelem (nd h a) with Some o => _ | None => false end); [done_same|].
+    destruct (G_upd h a (set_oelem (Some e)) ltac:(auto with upres) W) as [W1 L1].
+    match goal with |- context [upd ?H e (set_attrs ?L)] => destruct (G_upd H e (set_attrs L) ltac:(auto with upres) W1) as [W2 L2] end.
+    destruct (amap_find _ _ _) as [p|]; [|intros [= <- _]; split; [assumption|lia]].
+    destruct (Nat.eqb p a); intros [= <- _]; [split; [assumption|lia]|].
+    match goal with |- G _ (upd ?H p ?f) => destruct (G_upd H p f ltac:(auto with upres) W2) end. split; [assumption|lia].
+  - splitc. unfold remove_attribute_node. destruct (n_ro _); [done_same|].
+    destruct (if n_nsimpl (nd h a) then _ else _) as [f|]; [|done_same].
+    destruct (Nat.eqb f a); [|done_same]. intros [= <- _].
+    destruct (G_upd h e (set_attrs (amap_del (n_attrs (nd h e)) a)) ltac:(auto with upres) W) as [W1 L1].
+    destruct (G_upd _ a (set_oelem None) ltac:(auto with upres) W1). split; [assumption|lia].
+  - splitc. unfold get_attribute_node. done_same.
+  - splitc. apply G_rename; assumption.
 Qed.
 
 Lemma WFup_init : forall n, WFup (init_heap n).
@@ -313,11 +417,16 @@ Proof.
   - intros d Hd _. split; [unfold vodoc; rewrite V by assumption; reflexivity|apply P; assumption].
 Qed.
 
-Lemma run_WFup : forall l h h' rs, WFup h -> run_cfg cfg_fixed h l = (h', rs) -> WFup h'.
+Definition no_attr_value_op (o : op) : bool := match o with OSetAttr _ _ _ | OSetData _ _ => false | _ => true end.
+Lemma covered_of : forall h o, no_attr_value_op o = true -> covered h o = true.
+Proof. intros h o. destruct o; cbn; auto; discriminate. Qed.
+
+Lemma run_WFup : forall l h h' rs, WFup h -> forallb no_attr_value_op l = true -> run_cfg cfg_fixed h l = (h', rs) -> WFup h'.
 Proof.
-  induction l as [|o l IH]; intros h h' rs W; cbn [run_cfg].
+  induction l as [|o l IH]; intros h h' rs W Hl; cbn [run_cfg].
   - intros [= <- _]; assumption.
-  - destruct (step_cfg cfg_fixed h o) as [h1 x] eqn:E. destruct (step_G _ _ _ _ W E) as [W1 _].
+  - cbn [forallb] in Hl. apply andb_prop in Hl. destruct Hl as [Ho Hl].
+    destruct (step_cfg cfg_fixed h o) as [h1 x] eqn:E. destruct (step_G _ _ _ _ W (covered_of h o Ho) E) as [W1 _].
     destruct (run_cfg cfg_fixed h1 l) as [h2 xs] eqn:E2. intros [= <- _]. eapply IH; eauto.
 Qed.
 
